@@ -14,6 +14,7 @@ import sys
 HERE = os.path.dirname(os.path.abspath(__file__))
 sys.path.insert(0, os.path.dirname(os.path.dirname(HERE)))
 sys.path.insert(0, os.path.join(os.path.dirname(os.path.dirname(HERE)), ".deps"))
+sys.path.insert(1, "/verif/.deps")          # where MANIFEST setup_cmd installs atheris (also when this tree is a copy elsewhere)
 import vf  # noqa: E402
 import atheris  # noqa: E402
 
